@@ -110,8 +110,15 @@ fn expand(p: &Rle) -> Vec<u8> {
     v
 }
 
+/// Every payload this harness sends has at most a few dozen runs, so a payload with thousands of runs is one the
+/// code under test garbled (or made up). Such a payload is logged as a fixed-size digest that cannot equal any
+/// payload of a script - pseudo-runs with "byte" values above 255: total length, a hash, the number of runs - instead
+/// of millions of JSON records (a garbled 6 MiB echo logged four times per connection exhausted the machine's memory).
+const MAX_RUNS: usize = 2048;
+
 fn rle_json(bytes: &[u8]) -> Value {
     let mut out: Vec<Value> = vec![];
+    let mut runs = 0usize;
     let mut i = 0;
     while i < bytes.len() {
         let b = bytes[i];
@@ -119,8 +126,15 @@ fn rle_json(bytes: &[u8]) -> Value {
         while j < bytes.len() && bytes[j] == b {
             j += 1;
         }
-        out.push(json!({"b": b, "n": j - i}));
+        runs += 1;
+        if runs <= MAX_RUNS {
+            out.push(json!({"b": b, "n": j - i}));
+        }
         i = j;
+    }
+    if runs > MAX_RUNS {
+        return json!([{"b": 999, "n": bytes.len().min(CLAMP as usize)}, {"b": 1000, "n": fnv64(bytes) % 1_000_000_000 + 1},
+                      {"b": 1001, "n": runs.min(CLAMP as usize)}]);
     }
     Value::Array(out)
 }
@@ -527,6 +541,7 @@ fn find(h: &[u8], n: &[u8]) -> Option<usize> {
     h.windows(n.len()).position(|w| w == n)
 }
 
+const MAX_FRAMES: usize = 4096;
 const CLAMP: u64 = 2_000_000_000; // TLC integers are 32-bit: absurd announced lengths are clamped in the log
 
 /// Parse everything up to the end of the stream as RFC 6455 frames (5.2), reporting what is there.
@@ -597,6 +612,21 @@ fn read_frames(rd: &mut Rd) -> Vec<Value> {
         out.push(json!({"fin": fin, "rsv": rsv, "op": op, "mask": mask, "lf": lf, "len": len.min(CLAMP),
                         "pay": rle_json(&pay), "trunc": trunc}));
         if trunc {
+            break;
+        }
+        if out.len() >= MAX_FRAMES {
+            // a byte stream that parses into thousands of frames is garbage (no script makes the server write that many):
+            // record that, read the rest without keeping it
+            let mut rest = 0u64;
+            loop {
+                let chunk = rd.take(65536);
+                if chunk.is_empty() {
+                    break;
+                }
+                rest += chunk.len() as u64;
+            }
+            out.push(json!({"fin": false, "rsv": 0, "op": "garbled", "mask": false, "lf": 7, "len": rest.min(CLAMP),
+                            "pay": [], "trunc": true}));
             break;
         }
     }
@@ -930,7 +960,20 @@ fn run_all(cases: Vec<Case>, conc: usize) {
                 continue;
             }
             let mut rng = Rng::new(seed ^ ((c.idx as u64 + 1) * 0x9E37_79B9) ^ t as u64);
-            let line = run_case(&c, &srv, &mut rng);
+            // which scripts are in flight is known to the driver even if this process dies (a runaway allocation or
+            // an abort inside the code under test): such a death is retried with the script alone
+            out_line(&json!({"c": c.idx, "start": true, "case": if c.exp.is_none() { case_json(&c) } else { Value::Null }}));
+            let mut line = run_case(&c, &srv, &mut rng);
+            if let Some(mm) = line.get_mut("mismatch").and_then(|m| m.as_array_mut()) {
+                for m in mm.iter_mut() {
+                    if let Some(t) = m.as_str() {
+                        if t.len() > 6000 {
+                            let cut: String = t.chars().take(6000).collect();
+                            *m = json!(format!("{} ... ({} characters)", cut, t.len()));
+                        }
+                    }
+                }
+            }
             out_line(&line);
         }));
     }
